@@ -61,6 +61,8 @@ func main() {
 	)
 	flag.Parse()
 	files, _ := filepath.Glob(filepath.Join(*dir, "evid-*.json"))
+	sub, _ := filepath.Glob(filepath.Join(*dir, "*", "evid-*.json"))
+	files = append(files, sub...)
 	sort.Strings(files)
 	tests := map[string]*perTest{}
 	var samples []json.RawMessage
